@@ -93,7 +93,7 @@ structure LeafR (I : State → Prop) : Prop extends LeafW I where
   armTop : ∀ t, Pres I (armTop t)
   setStopping : Pres I setStopping
   setRestarting : Pres I setRestarting
-  clearRestarting : Pres I clearRestarting
+  clearRestarting : ∀ b, Pres I (clearRestarting b)
   setLoopStop : ∀ b, Pres I (setLoopStop b)
   setSocketEvent : ∀ b, Pres I (setSocketEvent b)
   setSockReady : ∀ b, Pres I (setSockReady b)
@@ -162,7 +162,7 @@ structure LeafRE (I : State → Prop) : Prop extends LeafWE I where
   armTop : ∀ t, Pres I (armTop t)
   setStopping : Pres I setStopping
   setRestarting : Pres I setRestarting
-  clearRestarting : Pres I clearRestarting
+  clearRestarting : ∀ b, Pres I (clearRestarting b)
   setLoopStop : ∀ b, Pres I (setLoopStop b)
   setSocketEvent : ∀ b, Pres I (setSocketEvent b)
   setSockReady : ∀ b, Pres I (setSockReady b)
@@ -209,7 +209,7 @@ structure Leaf (I : State → Prop) : Prop extends LeafW I where
   setClosed : Pres I setClosed
   setStopping : Pres I setStopping
   setRestarting : Pres I setRestarting
-  clearRestarting : Pres I clearRestarting
+  clearRestarting : ∀ b, Pres I (clearRestarting b)
   setLoopStop : ∀ b, Pres I (setLoopStop b)
   setSocketEvent : ∀ b, Pres I (setSocketEvent b)
   setSockReady : ∀ b, Pres I (setSockReady b)
